@@ -129,10 +129,9 @@ class SourceFile:
         self.replacements: list[Replacement] = []
         self.filename = filename
         with open(self.filename, "rb") as f:
-            # the encoding declared by the file (PEP 263), utf-8 by default
+            # the encoding declared by the file (PEP 263 or a byte order mark),
+            # utf-8 by default
             self.encoding, _ = tokenize.detect_encoding(f.readline)
-        if self.encoding == "utf-8-sig":
-            self.encoding = "utf-8"
         self.source = self.filename.read_text(self.encoding)
 
     def rewrite(self, validate=None):
